@@ -3,7 +3,7 @@
    Profiles() registry, regenerated from profiles.py on every run as a shared
    DAG (Gen/GenProfRe.v); matching is Base/Regex.v's matcher. *)
 From Coq Require Import List NArith Bool.
-From CssV Require Import Base.Regex Base.RegexDag Base.Chars Gen.GenProfRe Model.Validate Proofs.ValidateFacts.
+From CssV Require Import Base.Regex Base.RegexDag Base.Chars Gen.GenProfRe Gen.GenValid Model.Validate Model.ValidAgg Proofs.ValidateFacts Proofs.ValidAggFacts.
 Import ListNotations.
 
 (* the verdict is a function of the name, the (comment-free, normalised) value
@@ -40,6 +40,39 @@ Theorem C13_profiles_do_not_change_validity profiles name value :
   fst (validate_with profiles name value) = validate name value.
 Proof. exact (profiles_do_not_change_validity profiles name value). Qed.
 Print Assumptions C13_profiles_do_not_change_validity.
+
+(* a rule or sheet is valid iff all its declarations are.  The seven `valid`
+   accessors are regenerated from the source as terms (Gen/GenValid.v) and
+   interpreted over any rule tree - style rules, @media nested to any depth,
+   @page with margin rules, @font-face (which also needs its two descriptors:
+   [sheet_wf]), rules without a verdict: the sheet's verdict is the conjunction
+   over every declaration below it, shadowed ones included *)
+Theorem C13_valid_iff_all_declarations rs : sheet_wf rs = true ->
+  (sheet_valid rs = true <-> (forall d, In d (sheet_decls rs) -> dvalid d = true)).
+Proof. exact (sheet_valid_iff rs). Qed.
+Print Assumptions C13_valid_iff_all_declarations.
+
+Theorem C13_rule_valid_iff_all_declarations r : rule_wf r = true ->
+  match rule_valid r with
+  | Some b => b = true <-> (forall d, In d (rule_decls r) -> dvalid d = true)
+  | None => rule_decls r = []
+  end.
+Proof. exact (rule_valid_spec r). Qed.
+
+Theorem C13_block_valid_over_all_declarations ds : block_valid ds = forallb dvalid ds.
+Proof. exact (block_valid_all ds). Qed.
+
+(* the accessors have the shapes these theorems are stated for *)
+Theorem C13_aggregation_shapes : tree_shapes = true.
+Proof. exact shapes_ok. Qed.
+
+(* aggregating over the effective declarations only (the accessor as pinned) is refuted *)
+Theorem C13_effective_only_refuted :
+  forallb dvalid (filter deffective ex_shadowed) = true /\ exists d, In d ex_shadowed /\ dvalid d = false.
+Proof. exact effective_only_refuted. Qed.
+
+Example C13_valid_example : sheet_wf ex_tree = true /\ sheet_valid ex_tree = true.
+Proof. exact ex_tree_ok. Qed.
 
 (* non-vacuity: color: RED / red / 4 *)
 Example C13_example :
